@@ -73,6 +73,14 @@ def core(n):
     """normalised node: dict k (kind), t (type), a (children), n (name / operator)"""
     k = n.get("kind")
     inner = [c for c in n.get("inner", []) if c.get("kind") != "CXXDefaultArgExpr"]
+    def _under(x):      # the operand below implicit conversions
+        while x.get("kind") in SKIP and len(x.get("inner", [])) == 1:
+            x = x["inner"][0]
+        return x
+    if k in ("CXXStaticCastExpr", "CXXFunctionalCastExpr") and len(inner) == 1 and ty(_under(inner[0])) in ("float", "double") \
+            and ty(n) not in ("float", "double"):
+        # an explicit float -> integer conversion is a computation (truncation), whatever its spelling
+        return dict(k="?CStyleCastExpr", t=ty(n), n=None, a=[core(inner[0])])
     if k in SKIP and len(inner) == 1:
         return core(inner[0])
     if k == "CXXConstructExpr" and len(inner) == 1:
@@ -292,7 +300,7 @@ class Tr:
         if "_List_iterator" in t or "_List_const_iterator" in t or t.lower().endswith("ru_iterator") \
                 or ("std::list<" in t and "iterator" in t):
             return "liter"
-        if "_Node_iterator" in t or "keyed_iterator" in t or ("unordered_map<" in t and "iterator" in t):
+        if "_Node_iterator" in t or "_Node_const_iterator" in t or "keyed_iterator" in t or ("unordered_map<" in t and "iterator" in t):
             return "mit"
         if t == "void":
             return "unit"
